@@ -21,3 +21,9 @@ def excl_reroute(x: int) -> int:
 @app.task
 def three(x: int, y: int = 2, z: int = 3) -> int:
     return x
+
+
+@app.task
+def parent_waits_for_child(x: int) -> int:
+    # the child is routed and then awaited: the parent blocks in DistributedInvocation.result
+    return add(x, 1).result
